@@ -89,7 +89,7 @@ struct PendOp {
     unsigned nalt = 1;
     bool yielding = false;
     std::string what;  // for deadlock reports
-    double altWeight[8] = {1, 1, 1, 1, 1, 1, 1, 1};
+    double altWeight[32] = {1, 1, 1, 1, 1, 1, 1, 1, 1, 1, 1, 1, 1, 1, 1, 1, 1, 1, 1, 1, 1, 1, 1, 1, 1, 1, 1, 1, 1, 1, 1, 1};
     unsigned weakMask = 0;  // alternatives that do not count as progress (spurious wake-ups)
 };
 
@@ -1568,6 +1568,10 @@ inline int pick_and_call(const std::vector<int>& menu, const std::vector<const c
     if (scheduled()) {
         PendOp op;
         op.kind = "call";
+        if (menu.size() > 31) {
+            fprintf(stderr, "menu too large (max 31 alternatives)\n");
+            _exit(3);
+        }
         op.nalt = (unsigned)menu.size();
         unsigned mask = (1u << menu.size()) - 1;
         op.enabledMask = [mask] { return mask; };
